@@ -131,3 +131,47 @@ func TestC20RegistrationDuringReopen(t *testing.T) {
 		sec.Case(true, d, "mode="+mode)
 	})
 }
+
+const ruleRemove = "rapid: 3-5 pipelines for one event type registered in order; the first node of a drawn pipeline, from inside its Reopen, removes its own pipeline, an earlier one or a later one; oracle = that same Broker.Reopen call still reopens every node of every pipeline that stayed registered throughout and returns nil; non-trivial = a pipeline registered after the removed one exists; distinct = configuration"
+
+// TestC20RemovalDuringReopen: pipelines that stay registered are reached although another one disappears mid-walk.
+func TestC20RemovalDuringReopen(t *testing.T) {
+	sec := stats.Sec("removal_during_reopen", ruleRemove)
+	rapid.Check(t, func(t *rapid.T) {
+		np := rapid.IntRange(3, 5).Draw(t, "pipelines")
+		actor := rapid.IntRange(0, np-1).Draw(t, "actingPipeline")
+		target := rapid.IntRange(0, np-1).Draw(t, "removedPipeline")
+		d := fmt.Sprintf("pipelines=%d actor=p%d removes=p%d", np, actor, target)
+		b, _ := eventlogger.NewBroker()
+		var ms, ss []*simul.Node
+		for i := 0; i < np; i++ {
+			m, s := simul.New(fmt.Sprintf("m%d", i), eventlogger.NodeTypeFormatter), simul.New(fmt.Sprintf("s%d", i), eventlogger.NodeTypeSink)
+			ms, ss = append(ms, m), append(ss, s)
+			_ = b.RegisterNode(eventlogger.NodeID(m.Name), m)
+			_ = b.RegisterNode(eventlogger.NodeID(s.Name), s)
+			if err := b.RegisterPipeline(eventlogger.Pipeline{PipelineID: eventlogger.PipelineID(fmt.Sprintf("p%d", i)), EventType: "T", NodeIDs: []eventlogger.NodeID{eventlogger.NodeID(m.Name), eventlogger.NodeID(s.Name)}}); err != nil {
+				t.Fatalf("harness: %v", err)
+			}
+		}
+		acted := false
+		ms[actor].OnReopen = func(int64) error {
+			if !acted {
+				acted = true
+				_ = b.RemovePipeline("T", eventlogger.PipelineID(fmt.Sprintf("p%d", target)))
+			}
+			return nil
+		}
+		if err := b.Reopen(context.Background()); err != nil {
+			t.Fatalf("VIOLATION C20: Reopen failed although no node fails: %v\ncase: %s", err, d)
+		}
+		for i := 0; i < np; i++ {
+			if i == target {
+				continue
+			}
+			if ms[i].Reopened.Load() == 0 || ss[i].Reopened.Load() == 0 {
+				t.Fatalf("VIOLATION C20: pipeline p%d stayed registered during the whole Reopen (another pipeline, p%d, was removed from inside a node's Reopen) but was not reopened (formatter %d, sink %d)\ncase: %s", i, target, ms[i].Reopened.Load(), ss[i].Reopened.Load(), d)
+			}
+		}
+		sec.Case(target < np-1, d, fmt.Sprintf("own=%v", target == actor))
+	})
+}
